@@ -17,7 +17,9 @@ RULE = ("cases = (decimal places 3..9, list of <=30 calls over tool_on/off, "
         "case), pause/stop/wait/emergency_halt, moves/rapids/*_absolute/probes "
         "with F/S/E/A/P words, set_axis/auto_home with extra axes, mode/unit/"
         "plane setters, temperatures, a move hook that rewrites F/S and returns a "
-        "new parameter dict (installed/removed along the way), with values from the grid {0,0.5,1,60,"
+        "new parameter dict (installed/removed along the way), absolute_mode()/"
+        "relative_mode() contexts around sub-histories (state compared inside "
+        "the body too), earlier calls repeated verbatim (value coincidences), with values from the grid {0,0.5,1,60,"
         "100,1000,12345.678} plus random finite values); non-trivial = >=3 "
         "different state-changing call kinds and a value overwritten through a "
         "second path (S via a move/probe after tool_on/power_on, F via probe "
@@ -60,7 +62,38 @@ def run_case(case, cl=None):
     hooked = bool(case.get("hook0"))
     if hooked:
         s.g.add_hook(rewriting_hook)
-    for i, call in enumerate(case["calls"]):
+    src = []
+    for call in case["calls"]:      # "repeat": an earlier call is issued again, verbatim
+        if call["op"] == "repeat":
+            prior = [c for c in src if c["op"] not in ("hook", "ctx")]
+            if prior:
+                src.append(prior[-1 - call["back"] % len(prior)])
+                cl.add("earlier_call_repeated")
+            continue
+        src.append(call)
+    calls = []
+    for call in src:      # flatten contexts into enter/exit markers
+        if call["op"] == "ctx":
+            calls.append({"op": "_enter", "kind": call["kind"]})
+            calls.extend(call["body"])
+            calls.append({"op": "_exit"})
+        else:
+            calls.append(call)
+    stack = []
+    for i, call in enumerate(calls):
+        if call["op"] == "_enter":
+            cm = getattr(s.g, call["kind"])()
+            cm.__enter__()
+            stack.append(cm)
+            cl.add("mode_context")
+            s.poll()
+            sh.compare_state(s, model, f"after entering {call['kind']}()")
+            continue
+        if call["op"] == "_exit":
+            stack.pop().__exit__(None, None, None)
+            s.poll()
+            sh.compare_state(s, model, "after leaving a mode context")
+            continue
         if call["op"] == "hook":
             s.g.remove_hook(rewriting_hook)
             hooked = bool(call["on"])
@@ -108,10 +141,16 @@ def replay(case):
 def strategy(n):
     from hypothesis import strategies as st
     hook = st.booleans().map(lambda b: {"op": "hook", "on": b})
+    ctx = st.fixed_dictionaries({"op": st.just("ctx"),
+                                 "kind": st.sampled_from(["absolute_mode", "relative_mode"]),
+                                 "body": st.lists(sh.call_strategy(), max_size=4)})
     return st.fixed_dictionaries({
         "dp": st.integers(3, 9), "hook0": st.sampled_from([False, False, True]),
         "calls": st.lists(st.one_of(sh.call_strategy(), sh.call_strategy(), sh.call_strategy(),
-                                    sh.call_strategy(), hook), min_size=1, max_size=n)})
+                                    sh.call_strategy(), hook, ctx,
+                                    st.integers(0, 3).map(lambda b: {"op": "repeat", "back": b}),
+                                    st.integers(0, 3).map(lambda b: {"op": "repeat", "back": b})),
+                          min_size=1, max_size=n)})
 
 
 def run_shard(ctx):
